@@ -5,7 +5,7 @@
    dependency) is no longer an assumption: see deps_cover_by_construction. *)
 From V Require Import Common.Base C10.BitSet C10.Renamer C10.Split
   C10.BitSetProofs C10.RenamerProofs C10.ListLemmas C10.SplitProofs C10.OrderProofs C10.CrossProofs
-  C10.Eval C10.EvalProofs C10.TotalProofs C10.DfsProofs C10.DynProofs.
+  C10.Eval C10.EvalProofs C10.TotalProofs C10.DfsProofs C10.DynProofs C10.Css C10.CssProofs.
 From Coq Require Import Permutation.
 From Coq Require Import Relations.
 
@@ -287,3 +287,40 @@ Theorem dynamic_entry_loads_all_reachable : forall g r f t oj f', split g = Some
     c_entry (nth oi (a_chunks a) dchunk) = Some (bit, t) /\ (oj = oi \/ sedge (r_cross r) oi oj).
 Proof. exact dynamic_entry_loads_all_reachable_all. Qed.
 Print Assumptions dynamic_entry_loads_all_reachable.
+
+(* ---- the CSS side of code splitting (Css.v; JS entry points, unconditional internal @import) ---- *)
+(* esbuild's guarantee for CSS is per entry point, not per file: there is exactly one CSS chunk
+   for every entry point that reaches CSS (none otherwise), keyed by the entry point's bit *)
+Theorem css_one_chunk_per_entry : forall g ents i e fs,
+  In (i, e, fs) (css_chunks g ents) <->
+  nth_error ents i = Some e /\ css_roots g e <> [] /\ fs = css_chunk_files g e.
+Proof. exact css_one_chunk_per_entry_all. Qed.
+Print Assumptions css_one_chunk_per_entry.
+
+Theorem css_chunk_bits_nodup : forall g ents, NoDup (map (fun c => fst (fst c)) (css_chunks g ents)).
+Proof. exact css_chunk_bits_nodup_all. Qed.
+Print Assumptions css_chunk_bits_nodup.
+
+(* the CSS chunk of an entry point holds exactly the CSS files reached from it: through the JS
+   import graph to a JS stub of a CSS file, then along "@import" rules (a path that does not
+   pass through a file twice) *)
+Theorem css_chunk_exact : forall g e c, wf_cgraphb g = true -> (e < length g)%nat ->
+  (In c (css_chunk_files g e) <->
+   exists f root, jreach g e f /\ cf_stub (getc g f) = Some root /\ spath g [0%nat] root c).
+Proof. exact css_chunk_exact_all. Qed.
+Print Assumptions css_chunk_exact.
+
+(* ... each of them once (all but the last copy are dropped) *)
+Theorem css_chunk_nodup : forall g e, NoDup (css_chunk_files g e).
+Proof. exact css_chunk_nodup_all. Qed.
+Print Assumptions css_chunk_nodup.
+
+(* shared CSS is duplicated by design: a CSS file reached from two entry points is in both CSS
+   chunks (there is no partition on the CSS side) *)
+Theorem css_shared_duplicated : forall g e1 e2 f1 f2 r1 r2 c, wf_cgraphb g = true ->
+  (e1 < length g)%nat -> (e2 < length g)%nat ->
+  jreach g e1 f1 -> cf_stub (getc g f1) = Some r1 -> spath g [0%nat] r1 c ->
+  jreach g e2 f2 -> cf_stub (getc g f2) = Some r2 -> spath g [0%nat] r2 c ->
+  In c (css_chunk_files g e1) /\ In c (css_chunk_files g e2).
+Proof. exact css_shared_duplicated_all. Qed.
+Print Assumptions css_shared_duplicated.
